@@ -96,13 +96,13 @@ func (f *reachFlow) Edge(from *ssa.BasicBlock, succ int, s cellDefs) (cellDefs, 
 
 type typeTerms struct {
 	globals map[string]string // package-level reflect.Type variables resolved from the package initialiser
-	m      *vmModel
-	fn     *ssa.Function
-	base   ssa.Value
-	before map[ssa.Instruction]cellDefs
-	busy   map[ssa.Value]bool
-	memoV  map[ssa.Value]string
-	memoT  map[ssa.Value]string
+	m       *vmModel
+	fn      *ssa.Function
+	base    ssa.Value
+	before  map[ssa.Instruction]cellDefs
+	busy    map[ssa.Value]bool
+	memoV   map[ssa.Value]string
+	memoT   map[ssa.Value]string
 	// summaries: result 0 of these functions has the type given by parameter i (a reflect.Type) / the type of parameter i (a reflect.Value)
 	resTypeParam map[*ssa.Function]int
 	resLikeParam map[*ssa.Function]int
